@@ -85,9 +85,38 @@ func wrongValues(f *cg.Field) []any {
 	return nil
 }
 
-// violations lists values of the right kind that violate the field's validate tag.
-func violations(f *cg.Field) []any {
-	var out []any
+// viol is one value of the right kind that violates a field's validate tag; label names the
+// tag and the boundary class of the value ("endpoint/port_low", "min/just_below", ...).
+type viol struct {
+	v     any
+	label string
+}
+
+// Ports no endpoint may have, by boundary class. The endpoint validator promises "host:port" /
+// ":port" with a port number of 1..65535: both edges of the range, numbers that only fit after
+// wrapping to 16 / 32 / 64 bits, an empty and a non-numeric port.
+var badPorts = []struct {
+	label string
+	ports []string
+}{
+	{"port_low", []string{"0", "00", "000000", "-0", "-1", "-80"}},
+	{"port_high", []string{"65536", "65537", "99999", "65616", "4294967376", "18446744073709551696"}},
+	{"port_empty", []string{""}},
+	{"port_non_numeric", []string{"abc", "80a", "http", "0x50", "8 0", "1e3", "80.0"}},
+}
+
+var endpointHosts = []string{"127.0.0.1", "", "[::1]", "localhost", "example.org", "10.1.2.3"}
+
+// violationsOf lists values of the right kind that violate the field's validate tag, for every
+// kind of tag the registered configs use (min, min-time, required, endpoint): the value(s) next
+// to the boundary, and values far beyond it.
+func violationsOf(f *cg.Field) []viol {
+	var out []viol
+	add := func(label string, vs ...any) {
+		for _, v := range vs {
+			out = append(out, viol{v, label})
+		}
+	}
 	for _, p := range strings.Split(f.Validate, ",") {
 		switch {
 		case strings.HasPrefix(p, "min="):
@@ -97,26 +126,67 @@ func violations(f *cg.Field) []any {
 			}
 			switch f.Class {
 			case cg.CInt:
-				out = append(out, int(m)-1, int(m)-100)
+				add("min/just_below", int(m)-1)
+				add("min/far_below", int(m)-100, -1<<31, -1<<62)
 			case cg.CFloat:
-				out = append(out, m-0.5, m-1, m-1e9)
+				add("min/just_below", m-1e-9, m-1e-3, m-0.5)
+				add("min/far_below", m-1, m-1e9, -1e300)
 			}
 		case strings.HasPrefix(p, "min-time="):
 			if f.Class == cg.CDuration {
-				out = append(out, "0s", "500us", "-1s", "999999ns")
+				add("min-time/zero", "0s", "0ms")
+				add("min-time/just_below", "999999ns", "999.999us", "500us", "1ns")
+				add("min-time/negative", "-1s", "-1ms", "-1ns", "-1h")
 			}
 		case p == "required":
 			switch f.Class {
 			case cg.CString:
-				out = append(out, "")
+				add("required/zero", "")
 			case cg.CInt, cg.CUint:
-				out = append(out, 0)
+				add("required/zero", 0)
 			}
 		case p == "endpoint":
-			out = append(out, "no-port", "127.0.0.1", "127.0.0.1:99999", ":abc", "a b:80", "127.0.0.1:")
+			for _, g := range badPorts {
+				for _, port := range g.ports {
+					for _, h := range endpointHosts {
+						add("endpoint/"+g.label, h+":"+port)
+					}
+				}
+			}
+			add("endpoint/no_port", "no-port", "127.0.0.1", "[::1]", "localhost", "80")
+			add("endpoint/bad_host", "a b:80", "127.0.0.1:80:90", "::1:80", "exa mple.org:8080", "[127.0.0.1:80", "http://127.0.0.1:80")
 		}
 	}
 	return out
+}
+
+// violations lists the values of violationsOf.
+func violations(f *cg.Field) []any {
+	var out []any
+	for _, v := range violationsOf(f) {
+		out = append(out, v.v)
+	}
+	return out
+}
+
+// violLabels lists the distinct labels of a field's violations, in order of appearance.
+func violLabels(f *cg.Field) []string {
+	var out []string
+	seen := map[string]bool{}
+	for _, v := range violationsOf(f) {
+		if !seen[v.label] {
+			seen[v.label] = true
+			out = append(out, v.label)
+		}
+	}
+	return out
+}
+
+func tagOf(label string) string {
+	if i := strings.IndexByte(label, '/'); i >= 0 {
+		return label[:i]
+	}
+	return label
 }
 
 func misspell(t *rapid.T, key string) string {
@@ -214,10 +284,73 @@ func genMut(r *vf.Run) func(t *rapid.T) MutCase {
 			v := rapid.SampledFrom([]any{1, "x", true, nil, map[string]any{}, []any{}, "1s"}).Draw(t, "uval")
 			m.Op, m.Key, m.Value = "set", name, cg.Encode(v)
 		case mWrongType, mConstraint:
-			values := wrongValues
 			if kind == mConstraint {
-				values = violations
+				// the kind of validate tag first (min, min-time, required, endpoint: the tags are very unevenly
+				// spread over the fields), then a field carrying it, then the boundary class of the value
+				// (just below / far below / zero / port 0 / port 65536 / ...), then the value
+				var all []fieldAt
+				for _, s := range sites {
+					for _, f := range s.Fields {
+						if len(violationsOf(f)) > 0 {
+							all = append(all, fieldAt{s, f})
+						}
+					}
+				}
+				if rapid.Bool().Draw(t, "siteFirst") {
+					s := pickSite(func(s *cg.Site) bool {
+						for _, f := range s.Fields {
+							if len(violationsOf(f)) > 0 {
+								return true
+							}
+						}
+						return false
+					})
+					all = all[:0]
+					for _, f := range s.Fields {
+						if len(violationsOf(f)) > 0 {
+							all = append(all, fieldAt{s, f})
+						}
+					}
+				}
+				byTag := map[string][]fieldAt{}
+				var tags []string
+				for _, c := range all {
+					seen := map[string]bool{}
+					for _, l := range violLabels(c.f) {
+						tg := tagOf(l)
+						if seen[tg] {
+							continue
+						}
+						seen[tg] = true
+						if len(byTag[tg]) == 0 {
+							tags = append(tags, tg)
+						}
+						byTag[tg] = append(byTag[tg], c)
+					}
+				}
+				sort.Strings(tags)
+				tg := tags[rapid.IntRange(0, len(tags)-1).Draw(t, "tag")]
+				cands := byTag[tg]
+				c := cands[rapid.IntRange(0, len(cands)-1).Draw(t, "field")]
+				var labels []string
+				for _, l := range violLabels(c.f) {
+					if tagOf(l) == tg {
+						labels = append(labels, l)
+					}
+				}
+				label := labels[rapid.IntRange(0, len(labels)-1).Draw(t, "boundary")]
+				var vs []any
+				for _, v := range violationsOf(c.f) {
+					if v.label == label {
+						vs = append(vs, v.v)
+					}
+				}
+				v := vs[rapid.IntRange(0, len(vs)-1).Draw(t, "bad")]
+				m.Site, m.Comp, m.Depth = c.s.PathString(), c.s.Comp.Label(), c.s.Depth
+				m.Op, m.Key, m.Value = "set", presentKey(c.s, c.f.Key), cg.Encode(v)
+				break
 			}
+			values := wrongValues
 			// half of the time: a site first (as for the other kinds), then one of its fields; otherwise the
 			// value class first over the whole configuration, so that the rare classes (sizes, levels, lists,
 			// maps, unsigned) get their share
@@ -371,6 +504,14 @@ func checkMut(c MutCase, o *vf.Obs) error {
 	o.Class("kind:"+c.Mut.Kind, depthClass(s.Depth), "comp:"+s.Comp.Label(), "op:"+c.Mut.Op)
 	if f := s.Field(c.Mut.Key); f != nil && c.Mut.Kind != mUnknown {
 		o.Class("field_class:" + f.Class)
+		if c.Mut.Kind == mConstraint && c.Mut.Op == "set" {
+			for _, v := range violationsOf(f) {
+				if cg.Encode(v.v) == c.Mut.Value {
+					o.Class("violates:"+tagOf(v.label), "violates:"+v.label)
+					break
+				}
+			}
+		}
 	}
 	if s.Depth >= 2 {
 		o.NonTrivial()
